@@ -109,6 +109,7 @@ def filter_roles(prog):
 
 
 def run(ctx):
+    f5_association_removed_only_by_expiry(ctx)
     prog = ctx.prog
     FT_PATH, FT = filter_type(prog)
     if FT_PATH is None:
@@ -358,3 +359,29 @@ def run(ctx):
         verdict = any(s["k"] == "assign" and not s["p"][1] and s["rv"]["k"] == "bin" and s["rv"]["op"] == "Ne" and
                       (s["p"][0] == 0 or 0 in b.slice_fwd([s["p"][0]])[0]) for blk in b.rpo() for s in b.stmts(blk))
         ctx.ob("F4", b.defp, "verdict-is-bit-newly-set", where, verdict, "returns old != new", ordinal=False)
+
+
+def f5_association_removed_only_by_expiry(ctx):
+    """F5: the replay filter of a client session lives in that session's association. The association table (an LruCache keyed by the session
+    id, values owning a per-session task / channel) drops an entry only through its own expiry: an explicit `remove` (to "rebuild" an
+    association whose task ended) makes the next datagram of the same session id create a fresh association with an EMPTY filter, and every
+    packet id accepted before is accepted once more."""
+    prog = ctx.prog
+    n_tab, n_rm = 0, 0
+    for b in prog.prod_bodies():
+        if not b.defp.startswith("octo_squirrel_server") or "::_" in b.defp:
+            continue
+        tabs = [i for i, l in enumerate(b.locals) if "LruCache<u64" in l["ty"].get("s", "") and not l["ty"]["s"].lstrip().startswith("&") and l.get("user")]
+        if not tabs:
+            continue
+        n_tab += 1
+        for (blk, c, t) in b.calls():
+            if c.method in ("remove", "clear", "pop", "retain") and ("LruCache" in (c.self_s or "") or "lru_time_cache" in c.target) and t["args"]:
+                rp = op_place(t["args"][0])
+                if rp is not None and (b.slice_back([rp[0]], stop_call=lambda cc: True)[0] | {rp[0]}) & set(tabs):
+                    n_rm += 1
+                    ctx.ob("F5", b.defp, f"association-removed-only-by-expiry:{c.method}", loc(t["sp"]), False,
+                           f"`{c.name}` takes a session's association out of the table while the session id can still arrive: the association that replaces it starts with an empty "
+                           "packet-id filter, so a copy of a datagram that was already accepted (and forwarded) is accepted again")
+    ctx.ob("F5", "workspace", "association-table-removals-inventoried", "-", True, f"{n_tab} association table(s), {n_rm} explicit removal(s)", nontrivial=False, ordinal=False)
+    ctx.floor("F5", "server association tables (LruCache keyed by session id)", 1, n_tab)
